@@ -95,6 +95,9 @@ pub struct Parser<'input> {
     recursion_limit: LimitTracker,
     /// Accept parsing errors?
     accept_errors: bool,
+    /// Has the root node of the tree been started?
+    /// Until then, pending tokens are kept so that they end up *inside* the root node.
+    root_started: bool,
 }
 
 /// A pending token to be added to the CST - either ignored (whitespace/comment/comma) or an error.
@@ -131,6 +134,7 @@ impl<'input> Parser<'input> {
             errors: Vec::new(),
             recursion_limit: LimitTracker::new(DEFAULT_RECURSION_LIMIT),
             accept_errors: true,
+            root_started: false,
         }
     }
 
@@ -434,9 +438,16 @@ impl<'input> Parser<'input> {
     /// This allows for us to not have to always close nodes when we are parsing
     /// tokens.
     pub(crate) fn start_node(&mut self, kind: SyntaxKind) -> NodeGuard {
-        self.push_ignored();
-
-        self.builder.borrow_mut().start_node(kind);
+        if self.root_started {
+            self.push_ignored();
+            self.builder.borrow_mut().start_node(kind);
+        } else {
+            // A syntax tree has exactly one root: tokens seen before it (ignored tokens, lexer
+            // errors) go inside it rather than next to it.
+            self.root_started = true;
+            self.builder.borrow_mut().start_node(kind);
+            self.push_ignored();
+        }
         let guard = NodeGuard::new(self.builder.clone());
         self.skip_ignored();
 
@@ -447,8 +458,10 @@ impl<'input> Parser<'input> {
     /// other node.
     pub(crate) fn checkpoint_node(&mut self) -> Checkpoint {
         // We may start a new node here in the future, so let's process
-        // our preceding whitespace first
-        self.push_ignored();
+        // our preceding whitespace first (unless it would end up outside the root node)
+        if self.root_started {
+            self.push_ignored();
+        }
 
         let checkpoint = self.builder.borrow().checkpoint();
         Checkpoint::new(self.builder.clone(), checkpoint)
